@@ -352,6 +352,34 @@ def gen_adaptive_term(g, impl):
     return "(%s, %s, %s, %s, %s, %s)" % (srcs, common.clist([cnat(j) for j in used]), nums, ints, cnat(g['max_size']), it)
 
 
+def leaf_solver_harness(chk):
+    """the solvers the adaptive search hands every group and sub-group to (subnet_linker_recursive / nonrecursive / numba), called
+    directly on constructed groups whose distances are in small length units (2^-24, 2^-30: metres for micrometre steps): the
+    answer must be the optimum with the range in force - squared - as the cost of leaving a source unlinked
+    (C12 leaf_solved_optimally; the verified optimum is C02's check_choice).  In pixel units a perturbation of the null cost of
+    the order of 1e-7 is invisible; here it is of the order of the range itself."""
+    from props import c02
+    n = 300 if chk.tier == 'quick' else 6000
+    terms, graphs = [], []
+    for k in range(n):
+        g = c02.gen_graph(chk.rng, chk.tier)
+        g['unit_exp'] = chk.rng.choice([-24, -30, -20])
+        try:
+            a = c02.run_graph(g)
+        except Exception as e:
+            chk.violation('leaf solver: exception', 'subnet linker %s raised %r on a group within limits' % (g['strategy'], e), dict(kind='leafgraph', graph=g))
+            continue
+        graphs.append((g, a)); terms.append(c02.graph_term(g, a))
+        chk.tally('leaf solver called directly, distances in length unit 2^%d' % g['unit_exp'])
+    res = common.coq_eval_lists(chk.work, c02.IMPORTS, c02.GRAPH_FUNC, terms, tag='leafgraphs')
+    for (g, a), r in zip(graphs, res):
+        chk.count(('leafgraph', g), len(g['srcs']) >= 3)
+        if r != 0:
+            chk.violation('leaf solver: %s' % c02.GRAPH_CODES.get(r, r), 'subnet_linker_%s (the solver of every adaptive sub-group), range and distances in unit 2^%d: %s'
+                          % (g['strategy'], g['unit_exp'], c02.GRAPH_CODES.get(r, r)),
+                          dict(kind='leafgraph', code=r, graph=g, impl_assignment={str(k): v for k, v in a.items()}))
+
+
 def gen_harness(chk):
     """executes Gen/adaptive.v (when it builds) next to the real code and next to the model"""
     if not STATE['gen_ok']:
@@ -433,6 +461,7 @@ def run(chk):
         chk.sample(jsonable(metas[0][0], metas[0][1]))
     # the generated adaptive glue (route T), executed
     gen_harness(chk)
+    leaf_solver_harness(chk)
     chk.coverage['rule'] = ("dense lattice clusters + sparse walkers, 1-3 D, MAX_SUB_NET_SIZE_ADAPTIVE in 2..5, adaptive_step in {1/2,3/4,7/8,15/16} (exact in binary), "
                             "adaptive_stop/search_range in a dyadic set, memory 0-2, strategies recursive/nonrecursive/numba; non-trivial = a group exceeded the limit so the split or the raise was exercised")
     chk.assumptions += ["as C02", "isotropic search_range only (per-axis ranges divide coordinates by non-dyadic floats: boundary decisions of the split are then not exact)",
@@ -448,6 +477,17 @@ def replay(chk, path):
     common.quiet_trackpy()
     build(chk)
     rp0 = json.load(open(path))['replay']
+    if rp0.get('kind') == 'leafgraph':
+        from props import c02
+        g = rp0['graph']
+        g['srcs'] = [[tuple(x) for x in cs] for cs in g['srcs']]
+        a = c02.run_graph(g)
+        r = common.coq_eval_lists(chk.work, c02.IMPORTS, c02.GRAPH_FUNC, [c02.graph_term(g, a)])[0]
+        chk.count(('replay', g), True)
+        print('replay: leaf solver', g['strategy'], 'unit 2^%d' % g.get('unit_exp', 0), 'assignment', a, 'code', r, c02.GRAPH_CODES.get(r))
+        if r != 0:
+            chk.violation('leaf solver: %s' % c02.GRAPH_CODES.get(r, r), c02.GRAPH_CODES.get(r, r), dict(kind='leafgraph', code=r, graph=g))
+        return
     if rp0.get('kind') == 'genadaptive':
         if not STATE['gen_ok']:
             print('replay: generated adaptive glue not executable'); return
